@@ -156,6 +156,7 @@ def check_pair(A, B, m, seed2, nprobe=200):
     """the property as written, on the real implementation; returns (failures, measured)"""
     rng = _random.Random(seed2)
     fails, meas = [], {}
+    A, B = cg.prepared(A, B, m)
     A_pts, B_pts = cg.path_pts(A), cg.path_pts(B)
     before = (cg.deep_repr(A), cg.deep_repr(B))
     ids_in = {id(s) for p in (A, B) for s in p.asSegments()} | {id(q) for p in (A, B) for s in p.asSegments() for q in s.points}
@@ -199,7 +200,7 @@ def check_pair(A, B, m, seed2, nprobe=200):
         meas[f'region_bad_{op}'] = nbad
     # area identities
     if len(results) == 3:
-        simple = [k not in ('selfx',) for k in (m.get('kinds') or ['?', '?'])] if isinstance(m.get('kinds'), list) else [True, True]
+        simple = [k not in ('selfx', 'spiral2') for k in (m.get('kinds') or ['?', '?'])] if isinstance(m.get('kinds'), list) else [True, True]
         areas, deficit, per = [], 0.0, 0.0
         for path, pts_, smp, o in ((A, A_pts, simple[0], oa), (B, B_pts, simple[1], ob)):
             per += o.perimeter()
@@ -216,6 +217,20 @@ def check_pair(A, B, m, seed2, nprobe=200):
         if e1 > tol: fails.append(('C12-area', f'area(A or B) + area(A and B) = {U + I!r} but area(A) + area(B) = {areas[0] + areas[1]!r} (tolerance {tol:.6g})'))
         if e2 > tol: fails.append(('C12-area', f'area(A minus B) = {D!r} but area(A) - area(A and B) = {areas[0] - I!r} (tolerance {tol:.6g})'))
         meas['nonempty_intersection'] = I > 0
+    if m.get('expect_empty') and results.get('intersection'):
+        fails.append(('C12-region', f"the receiver lies in the doubly wound core of the argument (outside its even-odd interior) but intersection returned {len(results['intersection'])} path(s)"))
+    # ask again after an in-place edit: the answer must be the one freshly built equal paths give (no state may survive the edit)
+    if not fails and seed2 % 3 == 0:
+        v = P(37.0, -11.0)
+        who = A if seed2 % 2 else B
+        who.translate(v)
+        A2, B2 = cg.path_from_json(cg.path_json(A)), cg.path_from_json(cg.path_json(B))
+        for op in OPS3:
+            try: r_same = [cg.deep_repr(x) for x in getattr(A, op)(B, flat=True)]; r_new = [cg.deep_repr(x) for x in getattr(A2, op)(B2, flat=True)]
+            except Exception as ex: fails.append(('C12-exception', f'{op}(flat=True) after translate raised {type(ex).__name__}: {ex}')); break
+            if r_same != r_new:
+                fails.append(('C12-stale', f'{op}(flat=True) repeated after translating the {"receiver" if who is A else "argument"} in place by (37,-11) differs from the same call on freshly built equal paths')); break
+        meas['requery'] = 1
     return fails, meas
 
 
@@ -235,10 +250,12 @@ def search(ctx):
               (cg.Rectangle(100, 100, origin=P(0, 0)), cg.Circle(50, origin=P(0, 0)), {'kinds': ['rect', 'circle'], 'config': 'corpus-inscribed'}),
               (cg.Rectangle(60, 80, origin=P(0, 0)), cg.Circle(50, origin=P(0, 0)), {'kinds': ['rect', 'circle'], 'config': 'corpus-circumscribed'})]
     todo += corpus
+    todo += [cg.core_pair(rng) for _ in range(2)]
     for i in range(ctx.n(26, 1200)):
         todo.append(cg.gen_pair(rng, config=cg.CONFIGS[i % 4], big=None if ctx.tier == 'thorough' else (i % 13 == 0)))
     for A, B, m in todo:
         seed2 = rng.randrange(1 << 30)
+        ja, jb = cg.path_json(A), cg.path_json(B)
         f, meas = check_pair(A, B, m, seed2, nprobe=200)
         ev += 3 * meas.get('probes', 0) + 5
         key = f"{m['config']}/{'-'.join(m['kinds'])}"
@@ -248,9 +265,9 @@ def search(ctx):
         agg['max_flatten_deviation'] = max(agg['max_flatten_deviation'], meas.get('flatten_deviation', 0))
         agg['max_area_err_over_tol'] = max(agg['max_area_err_over_tol'], meas.get('area_err_union', 0), meas.get('area_err_difference', 0))
         for k in ('probes', 'probes_in_A_and_B', 'probes_in_one'): agg[k] += meas.get(k, 0)
-        if len(samples) < 2: samples.append({'A': cg.path_json(A), 'B': cg.path_json(B), 'meta': m, 'measured': meas})
+        if len(samples) < 2: samples.append({'A': ja, 'B': jb, 'meta': m, 'measured': meas})
         for cls, msg in f:
-            fails.append({'class': cls, 'what': msg, 'input': {'A': cg.path_json(A), 'B': cg.path_json(B), 'meta': m, 'seed2': seed2},
+            fails.append({'class': cls, 'what': msg, 'input': {'A': ja, 'B': jb, 'meta': m, 'seed2': seed2},
                           'observed': [x[1] for x in f][:6], 'expected': 'C12 as written (closed complete chains; region = op; area identities; inputs unmodified)'})
             break
     return {'evaluations': ev, 'distinct_nontrivial': len(seen), 'failures': fails, 'distribution': dist, 'samples': samples, 'measured': agg}
